@@ -43,8 +43,8 @@ ASSUMPTIONS = [
     "documents with type-system definitions are parsed with allow_type_system=True",
 ]
 BOUNDS = {
-    "quick": {"valid_base_nodes": 3, "valid_dev_nodes": 1, "hand_seeds_deviated": [2, 3, 4, 5], "labelled_seed_nodes": 1, "def_perm_max": 4, "list_perm_max": 3, "four_field_conflicts": False, "earlier_operations": [2], "trivia": ["commas", "comments"]},
-    "thorough": {"valid_base_nodes": 4, "valid_dev_nodes": 2, "hand_seeds_deviated": [0, 1, 2, 3, 4, 5], "labelled_seed_nodes": 2, "def_perm_max": 4, "list_perm_max": 4, "four_field_conflicts": True, "earlier_operations": [1, 2], "trivia": ["newlines", "commas", "comments", "tabs-bom"]},
+    "quick": {"valid_base_nodes": 3, "valid_dev_nodes": 1, "hand_seeds_deviated": [2, 3, 4], "labelled_seed_nodes": 1, "def_perm_max": 3, "list_perm_max": 2, "four_field_conflicts": False, "earlier_operations": [2], "trivia": ["comments"]},
+    "thorough": {"valid_base_nodes": 4, "valid_dev_nodes": 2, "hand_seeds_deviated": [0, 1, 2, 3, 4, 5, 6], "labelled_seed_nodes": 2, "def_perm_max": 4, "list_perm_max": 4, "four_field_conflicts": True, "earlier_operations": [1, 2], "trivia": ["newlines", "commas", "comments", "tabs-bom"]},
 }
 TIME_CAP = {"quick": 150, "thorough": 1500}
 
@@ -139,7 +139,7 @@ def _nodes_with_args(doc):
     return out
 
 
-def _perms(n, maxfull):
+def _perms(n, maxfull, rotations=True):
     if n <= maxfull:
         return [p for p in itertools.permutations(range(n)) if list(p) != list(range(n))]
     out = []
@@ -147,6 +147,13 @@ def _perms(n, maxfull):
         p = list(range(n))
         p[i], p[i + 1] = p[i + 1], p[i]
         out.append(tuple(p))
+    # beyond the full-permutation bound: adjacent transpositions, the reversal and the two rotations
+    extra = [tuple(reversed(range(n)))]
+    if rotations:
+        extra += [tuple(range(1, n)) + (0,), (n - 1,) + tuple(range(n - 1))]
+    for p in extra:
+        if p not in out and list(p) != list(range(n)):
+            out.append(p)
     return out
 
 
@@ -309,13 +316,15 @@ def collisions(sm, doc):
                             d2["ops"][oi]["name"] = fn
                             yield "collide:operation=fragment", O.render(d2)
     # fragment name = field name of the document / type name
-    for fr in frags[:2]:
+    for fr in frags[:1]:
         for target in dfields[:1] + typenames[:1]:
             if target not in frags and target != "on":
                 yield "collide:fragment=%s" % ("field" if target in dfields else "type"), O.render(_rename(doc, {}, {fr: target}, {}))
     # variable name = argument name / field name / fragment name
-    for v in vars_[:2]:
-        for kind, pool in (("argument", dargs), ("field", dfields), ("fragment", frags)):
+    for vi, v in enumerate(vars_[:2]):
+        for kind, pool in (("argument", dargs), ("field", dfields), ("fragment", frags)) if vi == 0 else (("fragment", frags), ("argument", dargs)):
+            if vi == 1 and kind == "argument" and frags:
+                continue  # the second variable takes one collision only
             cand = [x for x in pool if x not in vars_]
             if cand:
                 yield "collide:variable=%s" % kind, O.render(_rename(doc, {}, {}, {v: cand[0]}))
@@ -337,6 +346,48 @@ def collisions(sm, doc):
             break
 
 
+def _value_slots(doc):
+    """every place holding a value text: (getter, setter) pairs over a document"""
+    slots = []
+    for lst in _lists(doc):
+        for s_ in lst:
+            if s_[0] == "f":
+                for k in list(s_[4]):
+                    slots.append((s_[4], k))
+            for d in (s_[3] if s_[0] == "f" else s_[2]):
+                for k in list(d[1]):
+                    slots.append((d[1], k))
+    for op in doc["ops"]:
+        for v in op["vars"]:
+            if v[2] is not None and " @" not in v[2]:
+                slots.append((v, 2))
+    return slots
+
+
+def _input_field_orders(doc):
+    """all orders of the fields of ONE input-object literal at a time (<= 3 fields: every permutation)"""
+    from mc.ref import execute as R
+
+    base = _value_slots(doc)
+    for si, (holder, key) in enumerate(base):
+        text = holder[key]
+        if "{" not in text:
+            continue
+        try:
+            val = R.parse_value(text)
+        except Exception:  # noqa
+            continue
+        for path in R.object_paths(val):
+            node = val
+            for i in path:
+                node = node[1][i][1] if node[0] == "object" else node[1][i]
+            for perm in _perms(len(node[1]), 3, rotations=False):
+                d2 = copy.deepcopy(doc)
+                h2, k2 = _value_slots(d2)[si]
+                h2[k2] = R.render_value(R.permute_object(val, path, perm))
+                yield "input-field-order", O.render(d2)
+
+
 def variants(sm, doc, bounds, only=None):
     """(tag, text) for every member of the metamorphic class (excluding the document itself);
     `only`: restrict to transformations whose tag starts with one of these prefixes"""
@@ -355,7 +406,7 @@ def _variants(sm, doc, bounds):
     lists = _lists(doc)
     for j, lst in enumerate(lists):
         if len(lst) >= 2:
-            for p in _perms(len(lst), bounds["list_perm_max"]):
+            for p in _perms(len(lst), bounds["list_perm_max"], rotations=False):
                 d2 = copy.deepcopy(doc)
                 l2 = _lists(d2)[j]
                 l2[:] = [l2[k] for k in p]
@@ -374,6 +425,8 @@ def _variants(sm, doc, bounds):
                 vs = d2["ops"][oi]["vars"]
                 vs[:] = [vs[k] for k in p]
                 yield "variable-definition-order", O.render(d2)
+    for x in _input_field_orders(doc):
+        yield x
     aliases, frags, vars_ = _names(doc)
     fieldnames = O._all_field_names(sm)
     # an alias that coincides with the name of a field of the schema may be the response key of an
@@ -579,6 +632,8 @@ def _check_case(case, st):
             if st.counters.get("evaluations", 0) % 2999 == 1:
                 st.sample({"expected": rule, "mutation": tag, "doc": O.render(c["doc"])})
             only = ("definition-order", "selection-order", "rename-fragments", "collide:fragment") if tag.startswith("conflict-among-several") else None
+            if tag.startswith("dup-input-field"):
+                only = ("input-field-order", "argument-order", "trivia")
             out.extend(evaluate(name, c, rule, tag, st, b, only))
             # the same violation in the 2nd / 3rd operation of a document whose earlier operations
             # are valid and already use the shared fragments (once per operator kind and seed)
